@@ -21,6 +21,9 @@ use serde_json::{json, Value};
 
 #[derive(Clone, Debug, Serialize, Deserialize)]
 pub struct ScEval {
+    /// SimpleGarnishData only: run on a working copy cloned from the store the program was built into
+    #[serde(default)]
+    pub working_copy: bool,
     pub basic: bool,
     pub src: String,
     pub input: Val,
@@ -49,6 +52,19 @@ fn run_real<D: SimData>(sc: &ScEval, out: &mut Outcome) -> Option<Real> {
         }
     };
     d.host_mut().recording = true;
+    if sc.working_copy {
+        match d.working_copy() {
+            Some(Ok(copy)) => {
+                d = copy;
+                out.probe("run-on-working-copy-of-the-store");
+            }
+            Some(Err(_)) => {
+                out.abstain = Some("working-copy-failed".into());
+                return None;
+            }
+            None => {}
+        }
+    }
     if start(&mut d, built.entry_jump, &sc.input).is_err() {
         out.abstain = Some("start-failed".into());
         return None;
@@ -309,7 +325,7 @@ impl Campaign for C10 {
                 script.resolve.insert(symbol_value(name), Answer::Churn(vr.range(1, 25) as u32, Box::new(prev)));
             }
         }
-        ScEval { basic, src, input: Val::Unit, script, max_steps: 3000 }
+        ScEval { working_copy: !basic && vr.chance(1, 4), basic, src, input: Val::Unit, script, max_steps: 3000 }
     }
 
     fn execute(&self, sc: &ScEval) -> Outcome {
@@ -333,7 +349,7 @@ impl Campaign for C10 {
                     let mut script = HostScript::default();
                     script.resolve.insert(symbol_value("c"), Answer::Provide(rep.clone()));
                     script.resolve_default = Some(Answer::Unique);
-                    v.push(ScEval { basic, src: con.to_string(), input: Val::Unit, script, max_steps: 200 });
+                    v.push(ScEval { working_copy: false, basic, src: con.to_string(), input: Val::Unit, script, max_steps: 200 });
                 }
             }
             // workload A2: the right operand of `&&` / `||` is an un-bracketed operator expression (the
@@ -366,7 +382,7 @@ impl Campaign for C10 {
                                 script.resolve.insert(symbol_value("a"), Answer::Provide(a.clone()));
                                 script.resolve.insert(symbol_value("b"), Answer::Provide(b.clone()));
                                 script.resolve_default = Some(Answer::Unique);
-                                v.push(ScEval { basic, src: format!("c {} {}", logical, shape), input: Val::Unit, script, max_steps: 200 });
+                                v.push(ScEval { working_copy: false, basic, src: format!("c {} {}", logical, shape), input: Val::Unit, script, max_steps: 200 });
                             }
                         }
                     }
@@ -377,7 +393,7 @@ impl Campaign for C10 {
                 let mut script = HostScript::default();
                 script.resolve.insert(symbol_value("c"), Answer::Decline);
                 script.resolve_default = Some(Answer::Unique);
-                v.push(ScEval { basic, src: con.to_string(), input: Val::Unit, script, max_steps: 200 });
+                v.push(ScEval { working_copy: false, basic, src: con.to_string(), input: Val::Unit, script, max_steps: 200 });
             }
         }
         v
@@ -505,7 +521,7 @@ impl Campaign for C17 {
         if basic && rng.chance(1, 8) {
             script.nth_override.insert(rng.below(6), Answer::Churn(rng.range(1, 30) as u32, Box::new(Answer::Unique)));
         }
-        ScEval { basic, src, input, script, max_steps: 3000 }
+        ScEval { working_copy: !basic && rng.chance(1, 4), basic, src, input, script, max_steps: 3000 }
     }
 
     fn execute(&self, sc: &ScEval) -> Outcome {
@@ -545,7 +561,10 @@ impl Campaign for C17 {
                         });
                         script.resolve.insert(symbol_value("x1"), Answer::Provide(Val::External(4)));
                         script.apply_default = Some(if mode == 0 { Answer::Decline } else { Answer::Unique });
-                        v.push(ScEval { basic, src: p.to_string(), input: input.clone(), script, max_steps: 300 });
+                        v.push(ScEval { working_copy: false, basic, src: p.to_string(), input: input.clone(), script: script.clone(), max_steps: 300 });
+                        if !basic {
+                            v.push(ScEval { working_copy: true, basic, src: p.to_string(), input: input.clone(), script, max_steps: 300 });
+                        }
                     }
                 }
             }
